@@ -91,21 +91,27 @@ func c16(w *World) {
 			switch typ {
 			case "A":
 				damage = "nonnumeric-108"
-				setField(fields, TagHeartBtInt, "3O")
+				txt, kind := NonNumeric(w.W, hb)
+				setField(fields, TagHeartBtInt, txt)
+				w.Probe("nonnumeric_" + kind)
 			case "2":
+				txt, kind := NonNumeric(w.W, 1)
 				if w.W.Chance(1, 2) {
 					damage = "nonnumeric-7"
-					setField(fields, TagBeginSeqNo, "one")
+					setField(fields, TagBeginSeqNo, txt)
 				} else {
 					damage = "nonnumeric-16"
-					setField(fields, TagEndSeqNo, "1.5")
+					setField(fields, TagEndSeqNo, txt)
 				}
+				w.Probe("nonnumeric_" + kind)
 			default:
 				damage, opts.BadSum = "checksum", true
 			}
 		case 3:
 			damage, wantTag34 = "nonnumeric-34", true
-			setField(fields, TagMsgSeqNum, "x"+itoa(seq))
+			txt, kind := NonNumeric(w.W, seq)
+			setField(fields, TagMsgSeqNum, txt)
+			w.Probe("nonnumeric_" + kind)
 		case 4:
 			damage, wantTag34 = "missing-34", true
 			fields = dropField(fields, TagMsgSeqNum)
